@@ -229,6 +229,11 @@ func substValues(p interface{}, b refmatch.Bindings) interface{} {
 type evalFlags struct {
 	lenientDiffers bool
 	rebind         bool
+	// nullInScript: a script used a variable bound to JSON null.  Whether
+	// the script sees null or undefined (the JavaScript bridge passes a Go
+	// nil as undefined, which a returned object then omits) is not fixed by
+	// the property; such results are not compared.
+	nullInScript bool
 }
 
 func (r *refEval) eval(q M, bss []refmatch.Bindings, mode refmatch.Mode, fl *evalFlags) []refmatch.Bindings {
@@ -247,6 +252,9 @@ func (r *refEval) eval(q M, bss []refmatch.Bindings, mode refmatch.Mode, fl *eva
 				}
 			case "eq":
 				v, _ := sem["var"].(string)
+				if b[v] == nil && sem["val"] == nil {
+					fl.nullInScript = true
+				}
 				x := refmatch.Canon(b[v])
 				if _, isArr := x.([]interface{}); isArr {
 					break
@@ -260,6 +268,9 @@ func (r *refEval) eval(q M, bss []refmatch.Bindings, mode refmatch.Mode, fl *eva
 			case "objvar":
 				v, _ := sem["var"].(string)
 				tgt, _ := sem["target"].(string)
+				if b[v] == nil {
+					fl.nullInScript = true
+				}
 				n := refmatch.Bindings{}
 				for k, y := range b {
 					n[k] = y
@@ -471,6 +482,10 @@ func runC03(c c03Case) *vlib.Outcome {
 			strict := multiset(ref.eval(c.Query, []refmatch.Bindings{incoming}, refmatch.Strict, fl))
 			lenient := multiset(ref.eval(c.Query, []refmatch.Bindings{incoming}, refmatch.Lenient, fl))
 			g := multiset(got)
+			if fl.nullInScript {
+				o.Label("null-binding-in-script")
+				return
+			}
 			if !msEqual(strict, lenient) {
 				// the array readings differ: accept either
 				o.Label("strict!=lenient")
